@@ -459,6 +459,14 @@ def prove(chk, prop_id, modules, theorems, role="theorem"):
         return False, hits, "\n".join(hits)
     aok, axioms, aout = audit_axioms(prop_id + "_" + modules[-1].split(".")[-1], modules[-1], theorems)
     allok = True
+    if os.environ.get("VERIF_TIER") == "thorough":
+        # independent re-check of the compiled Props module by the toolchain's `leanchecker` (replays the
+        # declarations of the .olean in a fresh kernel)
+        rc, lo, le = run(["lake", "env", "leanchecker", modules[-1]], cwd=LEAN, timeout=3600)
+        chk.obligation("leanchecker:" + modules[-1], "recheck", rc == 0, (lo + le)[-300:])
+        if rc != 0:
+            allok = False
+            failing.append("leanchecker:" + modules[-1])
     for t in theorems:
         short = t.split(".")[-1]
         ax = axioms.get(t, axioms.get("Scc.Props." + short))
